@@ -4,7 +4,7 @@
    photoelectrons.py (apply_qe), so the theorems over src_* are re-proved against the current source. *)
 From Coq Require Import QArith Qround Qminmax ZArith List Bool Lia Btauto Reals Psatz.
 From PyxelV Require Import Model.Conservation Proofs.ConservationBasic Proofs.ConservationPersist
-  Proofs.ConservationCdm Proofs.ConservationReal.
+  Proofs.ConservationCdm Proofs.ConservationReal Proofs.ConservationExt.
 From PyxelGen Require Import Gen_C15.
 Import ListNotations.
 Open Scope Q_scope.
@@ -20,6 +20,24 @@ Theorem C15_collection_frame_total : forall px ch, length px = length ch ->
   qsum (qadd_list px ch) == qsum px + qsum ch /\ length (qadd_list px ch) = length px.
 Proof. exact collect_frame_exact. Qed.
 Print Assumptions C15_collection_frame_total.
+
+(* the generated charge may be held as arrays (add_charge_array), as particles (add_charge: cosmic rays, charge
+   deposition) or both, in any order: `Charge.array` re-bins the particle frame, and collection adds exactly the
+   generated charge - per pixel what the container's array holds, in total every array entry and every particle *)
+Theorem C15_collection_any_representation : forall rows cols sv sh pixel ops,
+  length pixel = (rows * cols)%nat -> forallb (op_ok rows cols sv sh) ops = true ->
+  collect_ops cols sv sh pixel ops
+    = qadd_list pixel (charge_array cols sv sh ops (map (fun _ => 0) pixel))
+  /\ qsum (collect_ops cols sv sh pixel ops) == qsum pixel + ops_total ops
+  /\ length (collect_ops cols sv sh pixel ops) = length pixel.
+Proof. intros. split; [reflexivity | apply (collect_ops_exact rows); assumption]. Qed.
+Print Assumptions C15_collection_any_representation.
+
+(* a particle is binned into the pixel that contains its position *)
+Theorem C15_particle_binning : forall pos size, 0 < size ->
+  inject_Z (bin_idx pos size) * size <= pos /\ pos < (inject_Z (bin_idx pos size) + 1) * size.
+Proof. exact bin_idx_spec. Qed.
+Print Assumptions C15_particle_binning.
 
 (* ------------------------------------------------------------------------------------------ QE *)
 (* sampling off: exactly efficiency times photons, between zero and the photon count *)
@@ -41,6 +59,44 @@ Theorem C15_qe_sampling_bounds : forall binom : Z -> Q -> Z,
 Proof. exact qe_on_bounds. Qed.
 Print Assumptions C15_qe_sampling_bounds.
 
+(* a draw with success probability 1 (0) returns all (none) of its trials: exactly floor(photons) (zero) *)
+Theorem C15_qe_sampling_degenerate : forall binom : Z -> Q -> Z,
+  (forall n, (0 <= n)%Z -> binom n 1 = n) -> (forall n, (0 <= n)%Z -> binom n 0 = 0%Z) ->
+  forall p, 0 <= p -> qe_on binom 1 p = inject_Z (Qfloor p) /\ qe_on binom 0 p = 0.
+Proof. exact qe_on_degenerate. Qed.
+Print Assumptions C15_qe_sampling_degenerate.
+
+(* simple_conversion, as read from the source: the model argument, when given - 0.0 included -, is the efficiency;
+   otherwise the characteristics'; the accepted range is [0, 1] *)
+Theorem C15_qe_sources : forall arg char,
+  src_qe_select arg char = select_arg arg char
+  /\ (forall a, src_qe_select (Some a) char = Some a)
+  /\ src_qe_select None char = char
+  /\ (forall q, src_qe_range q = true <-> 0 <= q <= 1)
+  /\ (forall q, (if src_qe_range q then Some q else None) = qe_select (Some q) None).
+Proof.
+  intros. split; [destruct arg; reflexivity|]. split; [reflexivity|]. split; [reflexivity|]. split.
+  - intros q. unfold src_qe_range. rewrite andb_true_iff, !Qle_bool_iff. tauto.
+  - intros q. reflexivity.
+Qed.
+Print Assumptions C15_qe_sources.
+
+(* conversion_with_qe_map: the per-pixel range check read from the source is 0 <= q <= 1; an accepted map
+   converts every pixel with its own efficiency (exactly q*p, between zero and the photons of THAT pixel); a map
+   with a value outside [0, 1] is refused *)
+Theorem C15_qe_map : forall qs photon,
+  (forall q, src_qe_map_range q = true <-> 0 <= q <= 1)
+  /\ (forall out, length qs = length photon -> nonneg photon -> qe_map_model qs photon = Some out ->
+       Forall (fun q => 0 <= q <= 1) qs
+       /\ Forall2 (fun qp o => o == fst qp * snd qp /\ 0 <= o <= snd qp) (combine qs photon) out)
+  /\ (qe_map_model qs photon = None <-> ~ Forall (fun q => 0 <= q <= 1) qs).
+Proof.
+  intros. split.
+  - intros q. unfold src_qe_map_range. rewrite andb_true_iff, !Qle_bool_iff. tauto.
+  - split; [intros out; apply qe_map_bounds | apply qe_map_refused].
+Qed.
+Print Assumptions C15_qe_map.
+
 (* ------------------------------------------------------------------------------------------ full well *)
 Theorem C15_fullwell : forall c x,
   src_full_well c x == Qmin x c
@@ -56,6 +112,19 @@ Theorem C15_fullwell_guard : forall c xs,
   (c < 0 -> simple_full_well c xs = None) /\ (0 <= c -> simple_full_well c xs = Some (map (full_well c) xs)).
 Proof. exact simple_full_well_guard. Qed.
 Print Assumptions C15_fullwell_guard.
+
+(* simple_full_well, as read from the source: the argument, when given, IS the capacity (it overrides the
+   characteristics, in every order relation of the two); otherwise the characteristics'; below zero raises *)
+Theorem C15_fullwell_sources : forall arg char xs,
+  src_fw_select arg char = select_arg arg char
+  /\ (forall c, src_fw_raises c = Qltb c 0)
+  /\ (forall a, arg = Some a -> simple_full_well_sel arg char xs = simple_full_well a xs)
+  /\ (arg = None -> forall c, char = Some c -> simple_full_well_sel arg char xs = simple_full_well c xs)
+  /\ (arg = None -> char = None -> simple_full_well_sel arg char xs = None).
+Proof.
+  intros. split; [destruct arg; reflexivity|]. split; [reflexivity|]. apply full_well_sel_spec.
+Qed.
+Print Assumptions C15_fullwell_sources.
 
 (* ------------------------------------------------------------------------------------------ IPC *)
 (* the nine weights of the kernel literal found in the source sum to one, for ALL couplings *)
@@ -87,57 +156,38 @@ Qed.
 Print Assumptions C15_ipc_uniform.
 
 (* ------------------------------------------------------------------------------------------ persistence *)
-(* The full statement of the property: pixel' + sum trapped' = pixel + sum trapped and trapped' >= 0,
-   for any number n >= 1 of trap species inside the documented ranges. *)
-Definition C15_persistence_conserves_full : Prop :=
+(* The full statement of the property (refuted in round 1 by the faithful model of the then code - finding C15-F14,
+   repaired by `fix: persistence returns the clipped charge of every trap species to the pixel`; the model is the
+   repaired code): pixel' + sum trapped' = pixel + sum trapped and trapped' >= 0, for ANY number n >= 1 of trap
+   species inside the documented ranges. *)
+Theorem C15_persistence_conserves :
   forall sp tr p, length sp = length tr -> sp <> [] ->
     forallb species_ok sp = true -> forallb (Qle_bool 0) tr = true -> 0 <= p ->
     fst (persist_pixel sp tr p) + qsum (snd (persist_pixel sp tr p)) == p + qsum tr
     /\ nonneg (snd (persist_pixel sp tr p)).
+Proof.
+  intros sp tr p Hl _ Hs Ht Hp. split; [apply persist_conserves; exact Hl|].
+  apply (persist_nonneg sp tr p (species_ok_all sp Hs) (nonneg_b tr Ht) Hp).
+Qed.
+Print Assumptions C15_persistence_conserves.
 
-(* REFUTED by the faithful model of the unchanged code: two species, densities 1/2 and 1/4, time factor 1,
-   empty traps, 100 e- in the pixel: 40.625 + 18.75 + 9.375 = 68.75 <> 100 (31.25 e- vanish: the first
-   species' clipped excess is not returned to the pixel). *)
+(* the former failing input (100 e-, two species of densities 1/2 and 1/4, time factor 1, empty traps; the
+   unrepaired code returned 40.625 + 18.75 + 9.375 = 68.75) now keeps its 100 e- *)
 Definition witness_species : list species :=
   simple_species 1 [1; 1] [1 # 2; 1 # 4] None.
 
-Theorem C15_persistence_conserves_refuted : ~ C15_persistence_conserves_full.
-Proof.
-  intros H. assert (P : 0 <= 100) by (apply Qle_bool_iff; reflexivity).
-  specialize (H witness_species [0; 0] 100 eq_refl ltac:(discriminate) eq_refl eq_refl P).
-  destruct H as [H _]. vm_compute in H. discriminate H.
-Qed.
-Print Assumptions C15_persistence_conserves_refuted.
-
 Theorem C15_persistence_witness_values :
   let r := persist_pixel witness_species [0; 0] 100 in
-  Qred (fst r) = 325 # 8 /\ map Qred (snd r) = [75 # 4; 75 # 8]
-  /\ Qred (persist_lost witness_species [0; 0] 100) = 125 # 4.
+  Qred (fst r) = 575 # 8 /\ map Qred (snd r) = [75 # 4; 75 # 8] /\ Qred (fst r + qsum (snd r)) = 100.
 Proof. vm_compute. repeat split. Qed.
 Print Assumptions C15_persistence_witness_values.
 
-(* What IS true, for all inputs and any number of species: an exact account in which the only leak is the
-   clipped excess of the species before the last one (persist_lost >= 0); hence exact conservation for one
-   species, and for n species exactly when nothing but the last species is clipped. *)
-Theorem C15_persistence_conserves_partial :
-  (forall s t p, fst (persist_pixel [s] [t] p) + qsum (snd (persist_pixel [s] [t] p)) == p + qsum [t])
-  /\ (forall sp tr p, length sp = length tr -> sp <> [] ->
-        fst (persist_pixel sp tr p) + qsum (snd (persist_pixel sp tr p)) + persist_lost sp tr p == p + qsum tr
-        /\ 0 <= persist_lost sp tr p
-        /\ (fst (persist_pixel sp tr p) + qsum (snd (persist_pixel sp tr p)) == p + qsum tr
-            <-> persist_lost sp tr p == 0)).
-Proof.
-  split; [exact persist_conserves_one|]. intros sp tr p H NE.
-  split; [apply persist_account; assumption|]. split; [apply persist_lost_nonneg|].
-  apply persist_conserves_iff; assumption.
-Qed.
-Print Assumptions C15_persistence_conserves_partial.
-
-(* charge is never created: any number of species, any parameters *)
-Theorem C15_persistence_no_creation : forall sp tr p, length sp = length tr -> sp <> [] ->
-  fst (persist_pixel sp tr p) + qsum (snd (persist_pixel sp tr p)) <= p + qsum tr.
-Proof. exact persist_no_creation. Qed.
-Print Assumptions C15_persistence_no_creation.
+(* conservation itself needs no range hypothesis: any number of species (zero included), ANY parameters *)
+Theorem C15_persistence_conserves_any_parameters : forall sp tr p, length sp = length tr ->
+  fst (persist_pixel sp tr p) + qsum (snd (persist_pixel sp tr p)) == p + qsum tr
+  /\ length (snd (persist_pixel sp tr p)) = length tr.
+Proof. intros. split; [apply persist_conserves | apply persist_length]; assumption. Qed.
+Print Assumptions C15_persistence_conserves_any_parameters.
 
 (* trapped charge and the pixel never become negative: any number of species in the documented ranges *)
 Theorem C15_persistence_nonneg : forall sp tr p,
@@ -151,23 +201,24 @@ Proof.
 Qed.
 Print Assumptions C15_persistence_nonneg.
 
-(* repeated application over any number of readouts, each collecting `add >= 0` electrons first:
-   invariants kept, total never above what was put in; with one species the total is exact *)
-Theorem C15_persistence_steps : forall steps tr p, tr <> [] ->
+(* repeated application over any number of readouts, each collecting `add >= 0` electrons first, any number of
+   species: invariants kept and the total is EXACTLY what was there plus everything collected *)
+Theorem C15_persistence_steps : forall steps tr p,
   Forall (step_ok (length tr)) steps -> nonneg tr -> 0 <= p ->
   0 <= fst (persist_steps steps tr p) /\ nonneg (snd (persist_steps steps tr p))
   /\ length (snd (persist_steps steps tr p)) = length tr
   /\ fst (persist_steps steps tr p) + qsum (snd (persist_steps steps tr p))
-     <= p + qsum tr + qsum (map fst steps).
+     == p + qsum tr + qsum (map fst steps).
 Proof. exact persist_steps_inv. Qed.
 Print Assumptions C15_persistence_steps.
 
-Theorem C15_persistence_steps_one_species : forall steps t p,
-  Forall (fun st => length (snd st) = 1%nat) steps ->
-  exists t', snd (persist_steps steps [t] p) = [t'] /\
-  fst (persist_steps steps [t] p) + t' == p + t + qsum (map fst steps).
-Proof. exact persist_steps_one. Qed.
-Print Assumptions C15_persistence_steps_one_species.
+Theorem C15_persistence_steps_total : forall steps tr p,
+  Forall (fun st => length (snd st) = length tr) steps ->
+  length (snd (persist_steps steps tr p)) = length tr
+  /\ fst (persist_steps steps tr p) + qsum (snd (persist_steps steps tr p))
+     == p + qsum tr + qsum (map fst steps).
+Proof. exact persist_steps_total. Qed.
+Print Assumptions C15_persistence_steps_total.
 
 (* the parameter ranges documented for the two entry points give species inside the ranges used above *)
 Theorem C15_persistence_entry_points :
@@ -206,8 +257,8 @@ Print Assumptions C15_cdm_step_partial.
 (* lifted by induction over species, pixels along the transfer direction and lines: any frame (columns for
    the parallel direction, rows for the serial one), any number of species, traps empty at the start *)
 Theorem C15_cdm_partial : forall P : cdm_par,
-  (forall i k, 0 <= gam P i k) -> (forall a, thr < a -> 0 <= pw P a) ->
-  (forall k a, 0 <= pcap P k a <= 1) -> (forall k, 0 <= rel P k <= 1) ->
+  (forall i k, 0 <= gam P i k) -> (forall i k a, thr < a -> 0 <= pw P i k a) ->
+  (forall i k a, 0 <= pcap P i k a <= 1) -> (forall k, 0 <= rel P k <= 1) ->
   forall nsp lines, Forall nonneg lines ->
   Forall2 (fun li lo => nonneg lo /\ length lo = length li /\ qsum lo <= qsum li) lines (cdm_run P nsp lines)
   /\ qsum (map qsum (cdm_run P nsp lines)) <= qsum (map qsum lines).
@@ -215,6 +266,47 @@ Proof.
   intros P H1 H2 H3 H4 nsp lines Hl. split; [apply cdm_run_ok | apply cdm_run_total]; assumption.
 Qed.
 Print Assumptions C15_cdm_partial.
+
+(* the traps hand charge to LATER packets only: no prefix of a line (in transfer order) ends with more charge
+   than that prefix received - the line total is the last prefix *)
+Theorem C15_cdm_prefix_partial : forall P : cdm_par,
+  (forall i k, 0 <= gam P i k) -> (forall i k a, thr < a -> 0 <= pw P i k a) ->
+  (forall i k a, 0 <= pcap P i k a <= 1) -> (forall k, 0 <= rel P k <= 1) ->
+  forall nsp lines, Forall nonneg lines ->
+  Forall2 (fun li lo => forall m, qsum (firstn m lo) <= qsum (firstn m li)) lines (cdm_run P nsp lines).
+Proof. intros P H1 H2 H3 H4 nsp lines Hl. apply cdm_run_prefix; assumption. Qed.
+Print Assumptions C15_cdm_prefix_partial.
+
+(* ANY beta, tied to the implementation: the power / exponential factors enter as the table of values numpy
+   evaluates at every (packet, species) of every line - whatever they are, as long as they lie in their ranges (which
+   the case files check with `table_ok`) - and the bookkeeping is the model's.  Every line: nothing negative, same
+   length, and no prefix (hence not the total either) above what it received. *)
+Theorem C15_cdm_any_beta_table_partial : forall gs rs inj tbls lines,
+  nonneg gs -> Forall (fun r => 0 <= r <= 1) rs -> match inj with Some n => 0 <= n | None => True end ->
+  forallb table_ok tbls = true -> length tbls = length lines -> Forall nonneg lines ->
+  Forall2 (fun li lo => nonneg lo /\ length lo = length li /\ (forall m, qsum (firstn m lo) <= qsum (firstn m li)))
+          lines (cdm_run_each (map (cdm_par_table gs rs inj) tbls) (length gs) lines).
+Proof. exact cdm_table_run_ok. Qed.
+Print Assumptions C15_cdm_any_beta_table_partial.
+
+(* the range checks of the wrapper, as read from the source (finding C15-cdm-nan, repaired by `fix: cdm rejects a
+   zero 'max_electron_volume' and a zero full well capacity`): exactly the documented ranges with the two divisors
+   of the capture coefficients strictly positive; the capacity is the argument when given, else the
+   characteristics' *)
+Theorem C15_cdm_guard : forall vg beta fwc t,
+  src_cdm_guard vg beta fwc t = cdm_params_ok vg beta fwc t
+  /\ (src_cdm_guard vg beta fwc t = true ->
+      0 < 2 * vg /\ 0 < fwc /\ vg <= 1 /\ fwc <= 10000000 /\ 0 <= beta <= 1 /\ 0 <= t <= 10)
+  /\ src_cdm_guard 0 beta fwc t = false /\ src_cdm_guard vg beta 0 t = false
+  /\ (forall arg char, src_cdm_fwc_select arg char = select_arg arg char).
+Proof.
+  intros. assert (E : forall a b c d, src_cdm_guard a b c d = cdm_params_ok a b c d).
+  { intros. unfold src_cdm_guard, cdm_params_ok. btauto. }
+  rewrite !E. split; [reflexivity|]. split; [apply cdm_params_divisors|].
+  destruct (cdm_params_reject_zero beta fwc t vg) as [A B].
+  split; [exact A|]. split; [exact B|]. intros [a|] char; reflexivity.
+Qed.
+Print Assumptions C15_cdm_guard.
 
 (* the real functions approximated by the code meet those ranges (this one uses the real-number axioms) *)
 Theorem C15_cdm_real_factors :
@@ -236,6 +328,22 @@ Example ex_binom_hyp_satisfiable :
   forall n q, (0 <= n)%Z -> 0 <= q <= 1 -> (0 <= (fun n (_ : Q) => n) n q <= n)%Z.
 Proof. intros; lia. Qed.
 
+Example ex_collect_ops :
+  let ops := [OpArray [1; 2; 3; 4]; OpParticles [{| p_ver := 15; p_hor := 5; p_num := 120 |};
+                                                 {| p_ver := 0; p_hor := 10; p_num := 7 |}]; OpArray [0; 0; 1 # 2; 0]] in
+  forallb (op_ok 2 2 10 10) ops = true
+  /\ map Qred (collect_ops 2 10 10 [10; 20; 30; 40] ops) = [11; 29; 307 # 2; 44].
+Proof. vm_compute. split; reflexivity. Qed.
+
+Example ex_degenerate_draw_satisfiable :
+  let b := fun (n : Z) (q : Q) => if Qeq_bool q 0 then 0%Z else n in
+  (forall n, (0 <= n)%Z -> b n 1 = n) /\ (forall n, (0 <= n)%Z -> b n 0 = 0%Z).
+Proof. split; intros; reflexivity. Qed.
+
+Example ex_qe_map : qe_map_model [1 # 2; 0; 1] [7 # 2; 9; 5 # 4] = Some [(7 # 2) * (1 # 2); 9 * 0; (5 # 4) * 1]
+  /\ qe_map_model [1 # 2; 5 # 4] [3; 3] = None.
+Proof. split; reflexivity. Qed.
+
 Example ex_ipc_in_range : ipc_guard (1 # 8) (1 # 16) (1 # 32) = true
   /\ uniform 7 [[7; 7]; [7; 7]] /\ concat [[7; 7]; [7; 7]] <> [].
 Proof. split; [reflexivity|]. split; [repeat constructor; reflexivity | discriminate]. Qed.
@@ -247,6 +355,25 @@ Proof.
   split; [reflexivity|]. unfold step_ok. split; [simpl; lra|]. split; [reflexivity|].
   apply species_ok_all. reflexivity.
 Qed.
+
+(* three clipped species with capacities, two readouts: every electron is accounted for *)
+Example ex_persist_three_species_clipped :
+  let sp := simple_species 2 [1; 1; 4] [1 # 2; 1 # 4; 1 # 8] (Some [8; 4; 2]) in
+  let r := persist_steps [(0, sp); (50, sp)] [0; 0; 0] 100 in
+  Qred (fst r + qsum (snd r)) = 150 /\ map Qred (snd r) = [8; 4; 2].
+Proof. vm_compute. split; reflexivity. Qed.
+
+(* beta = 0.3-like factors for two packets and one species: the table instance runs and obeys the bound *)
+Example ex_cdm_table :
+  let tbl := [[(1 # 8, 1 # 2)]; [(1 # 4, 1 # 4)]; [(0, 0)]] in
+  table_ok tbl = true
+  /\ map Qred (hd [] (cdm_run_each [cdm_par_table [1 # 2] [1 # 4] None tbl] 1 [[1000; 10; 0]]))
+     = [1000; 235 # 24; 5 # 96].
+Proof. vm_compute. split; reflexivity. Qed.
+
+Example ex_cdm_params : cdm_params_ok (1 # 10000000000) (3 # 10) 100000 (1 # 1000) = true
+  /\ cdm_params_ok 0 (3 # 10) 100000 0 = false.
+Proof. split; reflexivity. Qed.
 
 (* a step that really captures and releases: a = 1000, gamma = 1/2, occupancy 3, pc = 1/2, r = 1/4 *)
 Example ex_cdm_step_nontrivial :
